@@ -55,6 +55,12 @@ def peek(it):
     raise TypeError('peek: not a spec-level iterator: %r' % (it,))
 
 
+def all_chars(s, pred):
+    """every character of the string s satisfies pred (a pure predicate on one-character strings).
+    In proofs: a measure over string concatenation (pyvc.charclass)."""
+    return all(pred(c) for c in s)
+
+
 # ---- prefix sums / counts over sequences.  Natively plain sums; in proofs an uninterpreted prefix
 # function per (sequence, f) that is unfolded one step at the index it is asked for
 # (pyvc.models.q_sum_prefix / q_count_prefix).  `f` / `pred` must be module-level functions.
